@@ -116,7 +116,7 @@ def gen_from(schema, born, rnd, nids):
     return {'k': 'sel', 'c': c, 'ops': gen_ops(schema, c, rnd, nids, 2)}
 
 
-def battery(kinds, per_step=3, dup_eq=False, sticky=0):
+def battery(kinds, per_step=3, dup_eq=False, sticky=0, sticky_ids=0):
     """returns obs(schema, acts, rnd) -> list (per step) of lists of observation records; `sticky` selections are drawn
     once per history and asked again after every step (an equality filter on a referential or other attribute, now and then
     followed by an ordering): the answer to a repeated question follows the model"""
@@ -136,6 +136,17 @@ def battery(kinds, per_step=3, dup_eq=False, sticky=0):
             if plain and rnd.random() < 0.3:
                 ops.append({'k': 'ord', 'ns': [rnd.choice(plain)], 'rev': rnd.random() < 0.5})
             fixed.append({'k': 'sel', 'form': rnd.choice(['many', 'many', 'one']), 'c': c, 'ops': ops})
+        for _ in range(sticky_ids):
+            # a selection of one instance by the value of an identifying attribute, asked again after every step: writes
+            # to that attribute (under any spelling), deletions and creations in between decide the answer
+            cs = [c for c in schema['classes'] if schema['uniques'].get(c)]
+            if not cs:
+                break
+            c = rnd.choice(cs)
+            n = rnd.choice(rnd.choice(schema['uniques'][c])['attrs'])
+            ty = [a['t'] for a in schema['attrs'][c] if a['n'] == n][0]
+            v = 'u:%d' % rnd.choice([1, 1, 2, 3]) if ty == 'UNIQUE_ID' else value_for(schema, c, n, rnd, 4)
+            fixed.append({'k': 'sel', 'form': rnd.choice(['one', 'one', 'many']), 'c': c, 'ops': [{'k': 'eq', 'kv': [[n, v]]}]})
         for born in born_per_step(schema, acts):
             nids = sum(born.values()) * 2 + 2
             qs = [dict(q) for q in fixed]
